@@ -165,7 +165,9 @@ class HostKeyTest:
                 try:
                     kex_group.send_init(s)  # For group exchanges this already reads (and may reject) the server's group message.
                     kex_reply = kex_group.recv_reply(s)
-                    raw_hostkey_bytes = kex_reply if kex_reply is not None else b''
+                    if kex_reply is None:  # The connection was closed or timed out: there is no host key to record (otherwise a size of 0 bits would be reported).
+                        raise KexDHException('no reply to the key exchange request')
+                    raw_hostkey_bytes = kex_reply
                 except (KexDHException, SSH_Socket.InvalidPacketException):
                     msg = "Failed to parse server's host key."
                     if not out.debug:
